@@ -330,6 +330,25 @@ Proof.
   apply nth_error_None in E. lia.
 Qed.
 
+Lemma index_num_spec y : forall l i, index_num y l = Some i ->
+  (i < length l)%nat /\ exists v, nth_error l i = Some v /\ val_num v == y.
+Proof.
+  induction l as [|v l IH]; intros i H; simpl in H; [discriminate|].
+  destruct (Qeqb (val_num v) y) eqn:E.
+  - injection H as <-. simpl. split; [lia|]. exists v. split; [reflexivity | apply Qeqb_eq; exact E].
+  - destruct (index_num y l) as [j|] eqn:Ej; [|discriminate]. injection H as <-.
+    destruct (IH j eq_refl) as (Hj & w & Hw & Ew). simpl. split; [lia|]. exists w. auto.
+Qed.
+Lemma index_num_exists y : forall l k v, nth_error l k = Some v -> val_num v == y ->
+  exists i, index_num y l = Some i.
+Proof.
+  induction l as [|w l IH]; intros k v Hk Hv; [destruct k; discriminate|]. simpl.
+  destruct (Qeqb (val_num w) y) eqn:E; [eauto|].
+  destruct k; simpl in Hk.
+  - injection Hk as ->. apply Qeqb_eq in Hv. congruence.
+  - destruct (IH k v Hk Hv) as [i ->]. simpl. eauto.
+Qed.
+
 Lemma argmin_from_range l : forall best bi cur,
   argmin_from best bi cur l = bi \/ (cur <= argmin_from best bi cur l < cur + length l)%nat.
 Proof.
@@ -574,7 +593,10 @@ Lemma fd_cast_member r y : (1 <= f_size r)%Z -> exists v, fd_cast r y = Some v /
 Proof.
   intro Hs. unfold fd_cast.
   assert (0 <= fd_map_to_int r y <= f_size r - 1)%Z as Hi.
-  { unfold fd_map_to_int. destruct (Qeqb (f_step r) 0); [lia|]. apply Zclip_bounds. lia. }
+  { unfold fd_map_to_int. destruct (Qeqb (f_step r) 0); [lia|].
+    destruct (castint_lookup r y) as [i|] eqn:E; [|apply Zclip_bounds; lia].
+    unfold castint_lookup in E. destruct (f_cast_int r); [|discriminate].
+    apply index_num_spec in E. destruct E as [E _]. rewrite fd_values_length in E. lia. }
   destruct (nth_error_some_lt (fd_values r) (Z.to_nat (fd_map_to_int r y))) as [v Hv].
   { rewrite fd_values_length. lia. }
   exists v. split; [exact Hv|]. eapply nth_error_mem_val. exact Hv.
@@ -913,7 +935,7 @@ Proof.
   pose proof (f_step_in r 0%Z Hsc Hlh ltac:(lia)) as Hin0.
   assert (sc_good (i_sc (f_rint r)) (c_lo (i_cont eps (f_rint r))) (c_hi (i_cont eps (f_rint r)))) as Hg
     by (apply linear_good).
-  unfold fr_to_nd, fr_from_nd, fr_map_to_int, fr_map_to_int_pre, fr_map_from_int, fr_map_from_int_pre, f_lo_i, f_hi_i.
+  unfold fr_to_nd, fr_from_nd, fr_map_to_int, castint_lookup, fr_map_to_int_pre, fr_map_from_int, fr_map_from_int_pre, f_lo_i, f_hi_i.
   rewrite Hsc, Hci. cbn [to_int from_int sc_dom Domain.linear val_num].
   set (step := f_step r) in *. set (lo := f_lo r) in *. set (hi := f_hi r) in *.
   rewrite !(Qclip_id _ lo hi Hin).
@@ -1088,7 +1110,10 @@ Qed.
 
 
 
-(* ================= finite range with cast_int: round trip ================= *)
+(* ================= finite range with cast_int: round trip =================
+   [castint_core] below: for LINEAR scaling the rounding path alone already returns to the same
+   value (a fact about round-half-even on a grid; since the fix of F-C07-15 the code looks a listed
+   value up directly, so the theorems no longer go through it) *)
 Lemma Qfloor_unique q z : inject_Z z <= q -> q < inject_Z z + 1 -> Qfloor q = z.
 Proof.
   intros H1 H2. pose proof (Qfloor_le q) as F1. pose proof (Qlt_floor q) as F2.
@@ -1201,57 +1226,74 @@ Proof.
   change (inject_Z 0) with 0 in Hlt. lra.
 Qed.
 
+Lemma fr_from_castint_VI r k : f_cast_int r = true -> exists z, fr_map_from_int r k = VI z.
+Proof. unfold fr_map_from_int. intros ->. eexists. reflexivity. Qed.
+
+(* with cast_int a listed value is looked up in the list of values: ANY scaling *)
+Lemma fr_roundtrip_castint_lookup eps r i :
+  0 < eps < 1#2 -> f_cast_int r = true -> Qeqb (f_step r) 0 = false -> (0 <= i < f_size r)%Z ->
+  exists e y, fr_to_nd eps r (fr_map_from_int r i) = Some e /\ 0 <= e <= 1 /\
+              fr_from_nd eps r e = Some y /\ val_eqb (fr_map_from_int r i) y = true.
+Proof.
+  intros He Hci Hst Hi.
+  destruct (fr_from_castint_VI r i Hci) as [z Ez].
+  pose proof (fd_values_nth r i Hi) as Hn. rewrite Ez in Hn.
+  destruct (index_num_exists (inject_Z z) (fd_values r) _ _ Hn) as [j Hj]; [simpl; reflexivity|].
+  destruct (index_num_spec _ _ _ Hj) as (Hjl & v & Hv & Ev). rewrite fd_values_length in Hjl.
+  assert (0 <= Z.of_nat j < f_size r)%Z as Hjr by lia.
+  pose proof (fd_values_nth r (Z.of_nat j) Hjr) as Hn2. rewrite Nat2Z.id, Hv in Hn2. injection Hn2 as Hv2.
+  destruct (fr_from_castint_VI r (Z.of_nat j) Hci) as [z' Ez'].
+  assert (z' = z) as ->.
+  { rewrite Hv2, Ez' in Ev. simpl in Ev. unfold Qeq in Ev. simpl in Ev. lia. }
+  assert (sc_good (i_sc (f_rint r)) (c_lo (i_cont eps (f_rint r))) (c_hi (i_cont eps (f_rint r)))) as Hg
+    by (apply linear_good).
+  destruct (int_roundtrip eps (f_rint r) (Z.of_nat j) He Hg) as (e & E1 & E2 & E3); [simpl; lia|].
+  exists e, (VI z). unfold fr_to_nd, fr_from_nd. rewrite Ez. cbn [val_num].
+  unfold fr_map_to_int, castint_lookup. rewrite Hst, Hci, Hj, E1, E3. cbn [option_map]. rewrite Ez'.
+  repeat split; try apply E2. simpl. apply Z.eqb_refl.
+Qed.
+
 Lemma fr_roundtrip_castint eps r i :
-  0 < eps < 1#2 -> f_sc r = Domain.linear -> f_cast_int r = true -> f_lo r <= f_hi r ->
+  0 < eps < 1#2 -> f_cast_int r = true ->
+  (f_sc r = Domain.linear /\ f_lo r <= f_hi r) \/ Qeqb (f_step r) 0 = false ->
   (0 <= i < f_size r)%Z ->
   exists e y, fr_to_nd eps r (fr_map_from_int r i) = Some e /\ 0 <= e <= 1 /\
               fr_from_nd eps r e = Some y /\ val_eqb (fr_map_from_int r i) y = true.
 Proof.
-  intros He Hsc Hci Hlh Hi.
+  intros He Hci Hor Hi.
+  destruct (Qeqb (f_step r) 0) eqn:E0; [|apply fr_roundtrip_castint_lookup; assumption].
+  destruct Hor as [[Hsc Hlh]|Hd]; [|discriminate]. apply Qeqb_eq in E0.
   assert (Hfrom : forall k, (0 <= k < f_size r)%Z ->
                   fr_map_from_int r k = VI (round_he (inject_Z k * f_step r + f_lo r))).
   { intros k Hk. unfold fr_map_from_int, fr_map_from_int_pre, f_lo_i. rewrite Hsc, Hci.
     cbn [from_int to_int Domain.linear].
     rewrite (Qclip_id _ _ _ (f_step_in r k Hsc Hlh Hk)). reflexivity. }
-  assert (Hto : forall X, fr_map_to_int r X =
-                  if Qeqb (f_step r) 0 then Some 0%Z
-                  else Some (round_he ((Qclip X (f_lo r) (f_hi r) - f_lo r) / f_step r))).
-  { intro X. unfold fr_map_to_int, fr_map_to_int_pre, f_lo_i, f_hi_i. rewrite Hsc.
-    cbn [from_int to_int sc_dom Domain.linear].
-    destruct (Qeqb (f_step r) 0); [reflexivity|].
-    rewrite (Qclip_id (Qclip X (f_lo r) (f_hi r)) _ _ (Qclip_bounds X _ _ Hlh)). reflexivity. }
   assert (sc_good (i_sc (f_rint r)) (c_lo (i_cont eps (f_rint r))) (c_hi (i_cont eps (f_rint r)))) as Hg
     by (apply linear_good).
-  pose proof (f_step_in r i Hsc Hlh Hi) as Hin.
-  unfold fr_to_nd, fr_from_nd. rewrite (Hfrom i Hi). cbn [val_num]. rewrite Hto.
-  pose proof (f_step_nonneg r Hsc Hlh) as Hs0.
-  pose proof (f_step_span r Hsc) as Hspan0.
-  set (lo := f_lo r) in *. set (hi := f_hi r) in *. set (step := f_step r) in *.
-  set (x := round_he (inject_Z i * step + lo)).
-  destruct (Qeqb step 0) eqn:E0.
-  - apply Qeqb_eq in E0.
-    destruct (int_roundtrip eps (f_rint r) 0%Z He Hg) as (e & E1 & E2 & E3); [simpl; lia|].
-    exists e. rewrite E1, E3. cbn [option_map]. rewrite (Hfrom 0%Z ltac:(lia)).
-    eexists. split; [reflexivity|]. split; [exact E2|]. split; [reflexivity|].
-    cbn [val_eqb]. apply Z.eqb_eq. unfold x. apply round_he_comp. rewrite E0. ring.
-  - apply Qeqb_neq in E0.
-    assert (0 < step) as Hs. { destruct (Qlt_le_dec 0 step); [assumption|]. exfalso. apply E0. lra. }
-    destruct (Hspan0 E0) as [Hn Hspan].
-    set (x' := Qclip (inject_Z x) lo hi).
-    pose proof (Qclip_bounds (inject_Z x) lo hi Hlh) as Hx'. fold x' in Hx'.
-    set (t := (x' - lo) / step).
-    assert (t * step == x' - lo) as Et by (unfold t; field; lra).
-    assert (inject_Z 0 <= t <= inject_Z (f_size r - 1)) as Ht.
-    { change (inject_Z 0) with 0. split.
-      - unfold t. apply Qle_shift_div_l; lra.
-      - unfold t. apply Qle_shift_div_r; lra. }
-    pose proof (round_he_in_Z t _ _ Ht) as Hj.
-    destruct (int_roundtrip eps (f_rint r) (round_he t) He Hg) as (e & E1 & E2 & E3); [simpl; lia|].
-    exists e. rewrite E1, E3. cbn [option_map]. rewrite (Hfrom (round_he t) ltac:(lia)).
-    eexists. split; [reflexivity|]. split; [exact E2|]. split; [reflexivity|].
-    cbn [val_eqb]. apply Z.eqb_eq. symmetry.
-    apply (castint_core lo hi step (inject_Z i * step + lo) t i (round_he t) x Hlh Hs);
-      [reflexivity | exact Hin | reflexivity | exact Et | reflexivity].
+  destruct (int_roundtrip eps (f_rint r) 0%Z He Hg) as (e & E1 & E2 & E3); [simpl; lia|].
+  exists e. unfold fr_to_nd, fr_from_nd, fr_map_to_int.
+  assert (Qeqb (f_step r) 0 = true) as -> by (apply Qeqb_eq; exact E0).
+  rewrite E1, E3. cbn [option_map]. rewrite (Hfrom 0%Z ltac:(lia)), (Hfrom i Hi).
+  eexists. split; [reflexivity|]. split; [exact E2|]. split; [reflexivity|].
+  cbn [val_eqb]. apply Z.eqb_eq. apply round_he_comp. rewrite E0. ring.
+Qed.
+
+(* FiniteRange.cast of a listed value returns that value (cast_int, any scaling) *)
+Lemma fd_cast_castint_exact r i :
+  f_cast_int r = true -> Qeqb (f_step r) 0 = false -> (0 <= i < f_size r)%Z ->
+  exists y, fd_cast r (val_num (fr_map_from_int r i)) = Some y /\ val_eqb (fr_map_from_int r i) y = true.
+Proof.
+  intros Hci Hst Hi.
+  destruct (fr_from_castint_VI r i Hci) as [z Ez].
+  pose proof (fd_values_nth r i Hi) as Hn. rewrite Ez in Hn.
+  destruct (index_num_exists (inject_Z z) (fd_values r) _ _ Hn) as [j Hj]; [simpl; reflexivity|].
+  destruct (index_num_spec _ _ _ Hj) as (Hjl & v & Hv & Ev).
+  exists v. unfold fd_cast, fd_map_to_int, castint_lookup. rewrite Ez. cbn [val_num].
+  rewrite Hst, Hci, Hj, Nat2Z.id. split; [exact Hv|].
+  rewrite fd_values_length in Hjl.
+  pose proof (fd_values_nth r (Z.of_nat j) ltac:(lia)) as Hn2. rewrite Nat2Z.id, Hv in Hn2. injection Hn2 as Hv2.
+  destruct (fr_from_castint_VI r (Z.of_nat j) Hci) as [z' Ez']. rewrite Hv2, Ez' in *. simpl in Ev.
+  unfold Qeq in Ev. simpl in Ev. simpl. lia.
 Qed.
 
 (* ================= one range, one space ================= *)
@@ -1353,7 +1395,8 @@ Definition hp_rt_ok (eps : Q) (h : hprange) : Prop :=
   match h with
   | HCont r => sc_good (c_sc r) (c_lo r) (c_hi r)
   | HInt r => sc_good (i_sc r) (c_lo (i_cont eps r)) (c_hi (i_cont eps r))
-  | HFin r => f_sc r = Domain.linear /\ f_lo r <= f_hi r
+  | HFin r => (f_sc r = Domain.linear /\ f_lo r <= f_hi r) \/
+              (f_cast_int r = true /\ Qeqb (f_step r) 0 = false)
   | HOneHot c _ => True
   | HBin c r | HOrdEq c r => i_sc r = Domain.linear /\ i_lo r = 0%Z /\ i_hi r = (Z.of_nat (length c) - 1)%Z
   | HOrdNN sc cats r =>
@@ -1380,12 +1423,13 @@ Proof.
   - destruct Hm as (z & -> & Hz).
     destruct (int_roundtrip eps r z He Hok Hz) as (e & E1 & E2 & E3).
     exists [e], (VI z). rewrite E1, E3. simpl. repeat split; auto. apply Z.eqb_refl.
-  - destruct Hok as (Hsc & Hlh). destruct Hm as (i & Hi & ->).
-    destruct (f_cast_int r) eqn:Hci.
-    + destruct (fr_roundtrip_castint eps r i He Hsc Hci Hlh Hi) as (e & y & E1 & E2 & E3 & E4).
-      exists [e], y. rewrite E1, E3. simpl. repeat split; auto.
-    + destruct (fr_roundtrip_linear eps r i He Hsc Hci Hlh Hi) as (e & y & E1 & E2 & E3 & E4).
-      exists [e], y. rewrite E1, E3. simpl. repeat split; auto.
+  - destruct Hm as (i & Hi & ->).
+    assert (exists e y, fr_to_nd eps r (fr_map_from_int r i) = Some e /\ 0 <= e <= 1 /\
+              fr_from_nd eps r e = Some y /\ val_eqb (fr_map_from_int r i) y = true) as (e & y & E1 & E2 & E3 & E4).
+    { destruct (f_cast_int r) eqn:Hci.
+      - apply fr_roundtrip_castint; auto. destruct Hok as [H|[_ H]]; [left; exact H | right; exact H].
+      - destruct Hok as [[Hsc Hlh]|[H _]]; [|discriminate]. apply fr_roundtrip_linear; auto. }
+    exists [e], y. rewrite E1, E3. simpl. repeat split; auto.
   - destruct (onehot_roundtrip c a x Hm) as (e & y & E1 & E2 & E3 & E4 & E5).
     exists e, y. repeat split; auto.
   - destruct Hok as (Hsc & Hlo & Hhi).
@@ -1439,5 +1483,5 @@ Lemma fr_map_to_int_total r x :
   exists i, fr_map_to_int r x = Some i.
 Proof.
   intros Hl Hd. unfold fr_map_to_int. destruct (Qeqb (f_step r) 0); [eauto|].
-  rewrite (Hd _ (Qclip_bounds x _ _ Hl)). eauto.
+  destruct (castint_lookup r x); [eauto|]. rewrite (Hd _ (Qclip_bounds x _ _ Hl)). eauto.
 Qed.
